@@ -1195,7 +1195,7 @@ func rulePeekOnly(p *Prog, r *Report) {
 		r.Undecided("PEEKONLY", "imagetype.ScanBuf", "-", "unresolved anchor")
 		return
 	}
-	fs := p.LibReach([]*ssa.Function{f})
+	fs := p.LibReachDirect([]*ssa.Function{f})
 	bad := ""
 	for _, g := range fs {
 		eachCall(g, func(site ssa.CallInstruction) {
